@@ -367,35 +367,8 @@ def explore(ctx, n_hist, n_batch, n_bimg, lines, pending):
 
 # ------------------------------------------------------------------------------- regenerated write table
 
-def _deep(o, seen=None, depth=0):
-    """deep content digest of an attribute value (arrays by bytes, menpo objects by their attributes)"""
-    import numpy as np
-    seen = seen if seen is not None else set()
-    if isinstance(o, np.ndarray):
-        return ("nd", o.dtype.str, o.shape, o.tobytes())
-    if isinstance(o, (list, tuple)):
-        return (type(o).__name__,) + tuple(_deep(x, seen, depth + 1) for x in o)
-    if isinstance(o, dict):
-        return ("dict",) + tuple((repr(k), _deep(v, seen, depth + 1)) for k, v in o.items())
-    if hasattr(o, "__dict__") and not callable(o) and depth < 6:
-        if id(o) in seen:
-            return ("cycle",)
-        seen.add(id(o))
-        return (type(o).__name__,) + tuple((k, _deep(v, seen, depth + 1)) for k, v in sorted(vars(o).items()))
-    if hasattr(o, "toarray"):
-        return ("sparse", o.shape, o.toarray().tobytes())
-    return ("atom", repr(o) if not callable(o) else "callable")
-
-
-def attr_writes(obj, action):
-    """names of the instance attributes of `obj` that `action()` rebinds, adds, removes or modifies in place"""
-    before = {k: (id(v), _deep(v)) for k, v in vars(obj).items()}
-    try:
-        action()
-    except Exception:      # noqa: BLE001 - a failing application may still have written state
-        pass
-    after = {k: (id(v), _deep(v)) for k, v in vars(obj).items()}
-    return sorted(k for k in set(before) | set(after) if before.get(k) != after.get(k))
+_deep = common.deep_digest
+attr_writes = common.attr_writes
 
 
 def write_table(seed=0):
